@@ -94,6 +94,7 @@ pub struct Oracle {
     nak_since_eof: bool,
     left_recv: bool,
     now_ms: u64,
+    last_activity_ms: u64,
     eof_at: Option<u64>,
     nak_due_handled: bool,
     last_ut_zero: bool,
@@ -127,6 +128,7 @@ impl Oracle {
             nak_since_eof: false,
             left_recv: false,
             now_ms: 0,
+            last_activity_ms: 0,
             eof_at: None,
             nak_due_handled: false,
             last_ut_zero: false,
@@ -159,6 +161,24 @@ impl Oracle {
         }
         if o.st == TransactionState::Suspended && (o.hp || o.ut != std::time::Duration::MAX) {
             self.fail(orc, "C19", k, format!("suspended but has_pdu_to_send={} until_timeout={:?}", o.hp, o.ut));
+        }
+        // ---- C17: an inactivity fault needs max_count consecutive expirations without any PDU from the peer
+        if !self.is_recv && t[0] == "ADV" {
+            self.now_ms += t[1].parse::<u64>().unwrap(); // (the receiver side advances now_ms in step_recv)
+        }
+        let now = if self.is_recv && t[0] == "ADV" { self.now_ms + t[1].parse::<u64>().unwrap() } else { self.now_ms };
+        if t[0] == "PDU" && self.prev_st != TransactionState::Suspended {
+            self.last_activity_ms = now;
+        }
+        for i in &o.inds {
+            if let Indication::Fault(f) = i {
+                if f.condition == Condition::InactivityDetected {
+                    let need = self.cfg.maxc as u64 * self.cfg.ti as u64 * 1000;
+                    if now < self.last_activity_ms + need {
+                        self.fail(orc, "C17", k, format!("inactivity fault {} ms after the last PDU from the peer; {} expirations of {} s are required", now - self.last_activity_ms, self.cfg.maxc, self.cfg.ti));
+                    }
+                }
+            }
         }
         if self.is_recv {
             self.step_recv(k, &t, o, orc);
